@@ -1,7 +1,394 @@
-from ..model import AnalysisError
+"""C04 - no lost wake-up: a servable waiting reservation is granted at once.
+
+Two potentials per store class, linear in the tracked lengths:
+    Φ_put = cap − Σ_H|L| − |RP|   (free, unreserved space)      Φ_get = |A| − |RG|   (available, unreserved items)
+The invariant behind the property is "queue non-empty ⇒ potential = 0"; it is preserved iff every *net*
+rise of a potential inside an atomic segment is answered, afterwards and before the segment ends, by
+the matching trigger call.
+"""
+from __future__ import annotations
+
+import ast
+
+from .. import lin, paths, storewalk, tables
+from ..model import AnalysisError, Project, self_attr, walk_no_nested
+from ..report import Result
+from ..tables import RP, RG, QP, QG, TRIGGERS, MUT
+from .common import events_atoms, site, src, sum_lin, status_str
+
 PROP = 'C04'
 LEVEL = 'other'
 
+TP, TG = '_trigger_reserve_put', '_trigger_reserve_get'
 
-def run(p, tier):
-    raise AnalysisError('rule module for C04 not implemented yet (fail closed)')
+# R4 frozen exceptions: grant predicates that legitimately carry an extra (non-length) conjunct.
+R4_EXCEPTIONS = {
+    ('base/belt_store.py', 'BeltStore', 'put'): 'belt spacing / accumulation gates (time-valued)',
+    ('base/slotted_belt_store.py', 'BeltStore', 'put'): 'slot spacing / no-accumulation gate (time-valued)',
+    ('edges/slotted_conveyor.py', 'BeltStore', 'put'): 'inherits the slotted store gate',
+    ('base/reservable_priority_req_filter_store.py', 'ReservablePriorityReqFilterStore', 'get'): 'filter match on the request',
+    ('base/slotted_belt_store.py', 'BeltStore', 'get'): 'no-accumulation bookkeeping flag (one_item_inserted) is written, not tested',
+}
+
+
+def run(p: Project, tier: str) -> Result:
+    r = Result(PROP)
+    r.explanation = ('Wake-up pairing: every net rise of free-unreserved space or of available-unreserved items inside an atomic '
+                     'segment, every new pending request, and (where the grant reads the request) every removal of a pending request is '
+                     'followed by the matching trigger before the segment ends; timed admission has a timer; service loop shape; '
+                     'grant predicate equivalent to availability.')
+    r.rule('C04.R1', 'every potential rise / new pending request is answered by the matching trigger before the next suspension', 60)
+    r.rule('C04.R2', 'where the grant depends on time, each put arranges a trigger at that time (timer process / event callback)', 4)
+    r.rule('C04.R3', 'service loop: starts at the head, grants queue[idx], pops iff triggered, |queue|-idx strictly decreases', 16)
+    r.rule('C04.R4', 'grant predicate ≡ availability (no extra conjunct keeps a servable head pending)', 16)
+    r.assumptions = ['cooperative scheduling', 'a trigger call serves the head of its queue (checked by R3)',
+                     'I1 (C01) as inductive hypothesis at stable points']
+    r.not_decided = ['belt stores: the gate flipping without any store call (time passing) - only the timer of R2 is checked',
+                     'head-of-line blocking among filtered requests']
+    ws = storewalk.walks(p, assume_inv=('I1',))
+    for w in ws:
+        r.paths += w.npaths
+        max_g = grants_per_trigger(w)
+        r.stats.setdefault('grants_per_trigger_call', {})[w.store.label] = max_g
+        check_pairing(p, w, r, max_g)
+        check_service_loop(p, w, r)
+        check_grant_equiv(p, w, r)
+        check_timers(p, w, r)
+    return r
+
+
+def grants_per_trigger(w):
+    """max number of grants one trigger call can perform (derived from the explored service loop)."""
+    out = {}
+    for t, L in ((TP, RP), (TG, RG)):
+        m = 0
+        for pa in w.roots[t]:
+            if pa.raises:
+                continue
+            n = sum(1 for e in pa.events if e.kind == 'op' and e.list == L and e.op in ('append', 'insert'))
+            # a path cut by the unrolling bound could continue granting
+            if any(e.kind == 'loopcut' and e.fi is not None and e.fi.name == t for e in pa.events):
+                n = max(n, 99)
+            m = max(m, n)
+        out[t] = m
+    return out
+
+
+def grant_reads_request(w, which) -> bool:
+    fi = w.store.methods['_do_reserve_put' if which == 'put' else '_do_reserve_get']
+    params = [a.arg for a in fi.node.args.args if a.arg != 'self']
+    if not params:
+        return False
+    ev = params[0]
+    for n in walk_no_nested(fi.node):
+        if isinstance(n, ast.Attribute) and isinstance(n.value, ast.Name) and n.value.id == ev \
+                and n.attr not in ('succeed', 'triggered', 'resourcename', 'requesting_process'):
+            return True
+    return False
+
+
+def check_pairing(p, w, r, max_g):
+    s = w.store
+    H = set(s.holders)
+    A = s.avail
+    reads = {'put': grant_reads_request(w, 'put'), 'get': grant_reads_request(w, 'get')}
+    sites = {}      # (root, which, site-key) -> record
+
+    def record(root, which, e, ok, pa, why=''):
+        key = site(e.fi, e.node, f'{which}-wake:{e.list}.{e.op}') + f'@{root}'
+        rec = sites.setdefault(key, {'ok': True, 'e': e, 'pa': pa, 'why': ''})
+        if not ok and rec['ok']:
+            rec.update(ok=False, e=e, pa=pa, why=why)
+
+    for root, ps in w.roots.items():
+        if root in TRIGGERS:
+            continue
+        for pa in ps:
+            if pa.raises:
+                continue
+            acc = {'put': 0, 'get': 0}
+            last_rise = {'put': None, 'get': None}
+            pend = {'put': None, 'get': None}      # queue event needing a trigger
+            touched = {'put': [], 'get': []}
+
+            def close(where):
+                for which in ('put', 'get'):
+                    if acc[which] > 0 and last_rise[which] is not None:
+                        record(root, which, last_rise[which], False, pa,
+                               f'net rise of {"free space" if which == "put" else "available items"} by {acc[which]} '
+                               f'not followed by {TP if which == "put" else TG}() before {where}')
+                    if pend[which] is not None:
+                        e = pend[which]
+                        record(root, which, e, False, pa,
+                               f'`{e.list}.{e.op}` (pending request {"added" if e.op == "append" else "removed"}) not followed by '
+                               f'{TP if which == "put" else TG}() before {where}')
+                    for e in touched[which]:
+                        record(root, which, e, True, pa)
+                    acc[which] = 0
+                    last_rise[which] = None
+                    pend[which] = None
+                    touched[which] = []
+            for e in pa.events:
+                if e.kind == 'op':
+                    d = MUT[e.op]
+                    L = e.list
+                    if L in H or L == RP:
+                        acc['put'] -= d
+                        if d < 0:
+                            last_rise['put'] = e
+                            touched['put'].append(e)
+                    if L == A:
+                        acc['get'] += d
+                        if d > 0:
+                            last_rise['get'] = e
+                            touched['get'].append(e)
+                    if L == RG:
+                        acc['get'] -= d
+                        if d < 0:
+                            last_rise['get'] = e
+                            touched['get'].append(e)
+                    for which, Q in (('put', QP), ('get', QG)):
+                        if L == Q:
+                            if d > 0 or reads[which]:
+                                pend[which] = e
+                                touched[which].append(e)
+                elif e.kind == 'call' and e.name in TRIGGERS:
+                    which = 'put' if e.name == TP else 'get'
+                    g = max_g[e.name]
+                    acc[which] = max(acc[which] - g, 0) if g < 99 else 0
+                    if acc[which] <= 0:
+                        last_rise[which] = None if acc[which] <= 0 else last_rise[which]
+                    pend[which] = None
+                elif e.kind == 'yield':
+                    close(f'the yield at line {e.line}')
+            close(f'the end of {root} ({status_str(pa.status)})')
+    for key, rec in sorted(sites.items()):
+        e = rec['e']
+        if rec['ok']:
+            r.ok('C04.R1', key, 'answered by the matching trigger on every path', src(e.fi.module), e.line)
+        else:
+            r.fail('C04.R1', key, rec['why'], src(e.fi.module), e.line, rec['pa'].describe())
+
+
+def check_service_loop(p, w, r):
+    s = w.store
+    for t, Q, grant in ((TP, QP, '_do_reserve_put'), (TG, QG, '_do_reserve_get')):
+        fi = s.methods[t]
+        r.analysed_functions.add(fi.key)
+        key = f'{s.ci.label}.{t}::service-loop'
+        bad = None
+        n_iter = 0
+        for pa in w.roots[t]:
+            heads = [e for e in pa.events if e.kind == 'loophead' and e.fi.key == fi.key and len(frames_of(e)) == 0]
+            # variant |Q| - idx at successive loop heads
+            prev = None
+            for h in heads:
+                idxs = {k: v for k, v in h.locals.items()}
+                n_iter += 1
+                # the index variable is the one compared in the while test
+                idxname = loop_index_name(fi, Q)
+                if idxname is None or idxname not in idxs:
+                    bad = (pa, 'cannot identify the loop index compared with len(queue)')
+                    break
+                iv = idxs[idxname]
+                il = lin.lconst(iv[1]) if iv[0] == 'const' else dict(iv[1])
+                var = lin.ladd(sum_lin([Q], h.g, h.dl), il, -1)
+                if prev is not None:
+                    diff = lin.ladd(prev, var, -1)      # prev - cur must be >= 1
+                    if not (all(k == '1' for k in diff) and diff.get('1', 0) >= 1):
+                        bad = (pa, f'|{Q}| − {idxname} does not strictly decrease between iterations ({lin.show(prev)} → {lin.show(var)})')
+                prev = var
+            # head-first and pop-iff-triggered
+            first_grant = True
+            cur_elem = None
+            for e in pa.events:
+                if e.kind == 'enter' and e.name == grant:
+                    pass
+                if e.kind == 'lookup':
+                    pass
+            grants = [e for e in pa.events if e.kind == 'enter' and e.name == grant]
+            # argument of the first grant call must be queue[0]
+            for i, e in enumerate(pa.events):
+                if e.kind == 'enter' and e.name == grant:
+                    argv = first_arg_value(pa, i)
+                    if first_grant:
+                        first_grant = False
+                        if not (argv and argv[0] == 'elem' and argv[1] == Q and argv[2] == ('const', 0)):
+                            bad = (pa, f'first request served is not {Q}[0] (got {argv})')
+                    cur_elem = argv
+                if e.kind == 'op' and e.list == Q and e.op == 'pop':
+                    res = e.result
+                    if cur_elem is None or res[:3] != cur_elem[:3]:
+                        bad = (pa, f'{Q}.pop removes {res[2] if res else "?"} but the request just served was {cur_elem[2] if cur_elem else "?"}')
+                    elif cur_elem not in pa_triggered_before(pa, i) and not tested_triggered(pa, i):
+                        bad = (pa, f'{Q}.pop executed although the served request did not trigger')
+                if e.kind == 'op' and e.list == Q and e.op not in ('pop',):
+                    bad = (pa, f'unexpected `{Q}.{e.op}` inside the service loop')
+        if n_iter == 0:
+            bad = (w.roots[t][0], 'no service-loop iteration found')
+        if bad:
+            r.fail('C04.R3', key, bad[1], src(fi.module), fi.node.lineno, bad[0].describe())
+        else:
+            r.ok('C04.R3', key, f'head-first, pop iff triggered, variant decreases ({n_iter} iterations examined)', src(fi.module), fi.node.lineno)
+
+
+def frames_of(e):
+    return []
+
+
+def loop_index_name(fi, Q):
+    for n in walk_no_nested(fi.node):
+        if isinstance(n, ast.While) and isinstance(n.test, ast.Compare) and isinstance(n.test.left, ast.Name):
+            c = n.test.comparators[0]
+            if isinstance(c, ast.Call) and isinstance(c.func, ast.Name) and c.func.id == 'len' and self_attr(c.args[0]) == Q:
+                return n.test.left.id
+    return None
+
+
+def first_arg_value(pa, i):
+    """value bound to the first parameter of the inlined call entered at event index i (from the callee's first use)."""
+    e = pa.events[i]
+    return e.d.get('arg0')
+
+
+def tested_triggered(pa, i) -> bool:
+    """the pop at event index i is control dependent on a true `<request>.triggered` test of the same iteration"""
+    for e in reversed(pa.events[:i]):
+        if e.kind == 'loophead':
+            return False
+        if e.kind == 'cond' and not e.d.get('synthetic') and e.text.endswith('.triggered') and e.polarity:
+            return True
+    return False
+
+
+def pa_triggered_before(pa, i):
+    out = set()
+    for e in pa.events[:i]:
+        if e.kind == 'succeed':
+            out.add(e.value)
+    return out
+
+
+def check_grant_equiv(p, w, r):
+    s = w.store
+    for which, gname, L in (('put', '_do_reserve_put', RP), ('get', '_do_reserve_get', RG)):
+        fi = s.methods[gname]
+        key = f'{s.ci.label}.{gname}::grant≡availability'
+        exc = R4_EXCEPTIONS.get((s.ci.module, s.ci.name, which))
+        ex = paths.Explorer(p, s.ci.key, tracked=set(s.lists), atomic={tables.LEVEL_UPDATER, *TRIGGERS}, assume=w.assume, unroll=1)
+        ps = ex.paths(fi)
+        r.paths += len(ps)
+        r.analysed_functions.add(fi.key)
+        bad = None
+        n_grant = 0
+        for pa in ps:
+            if pa.raises:
+                continue
+            granted = any(e.kind == 'op' and e.list == L and e.op in ('append', 'insert') for e in pa.events)
+            if granted:
+                n_grant += 1
+                continue
+            atoms = events_atoms(pa.events)
+            st0 = {}
+            if which == 'put':
+                phi = lin.ladd({'cap': 1}, sum_lin(list(s.holders) + [RP], {}, {}), -1)
+            else:
+                phi = lin.ladd(sum_lin([s.avail], {}, {}), sum_lin([RG], {}, {}), -1)
+            avail = ('<', lin.norm(lin.lneg(phi)))      # Φ > 0
+            if not lin.unsat(atoms + [avail]):
+                nonlin = [e.text for e in pa.events if e.kind == 'cond' and not e.d.get('synthetic') and not e.atoms]
+                bad = (pa, nonlin)
+        if n_grant == 0:
+            r.fail('C04.R4', key, 'no granting path found in the grant function', src(fi.module), fi.node.lineno)
+        elif bad and not exc:
+            r.fail('C04.R4', key, f'a request stays pending although {"space" if which == "put" else "an item"} is available: '
+                                  f'the grant carries an extra condition {bad[1][:3]}', src(fi.module), fi.node.lineno, bad[0].describe())
+        elif bad and exc:
+            r.ok('C04.R4', key, f'frozen exception: {exc}', src(fi.module), fi.node.lineno)
+        else:
+            r.ok('C04.R4', key, 'every non-granting path is infeasible when the potential is positive', src(fi.module), fi.node.lineno)
+
+
+def mentions_now(fi) -> bool:
+    return any(isinstance(n, ast.Attribute) and n.attr == 'now' for n in ast.walk(fi.node))
+
+
+def check_timers(p, w, r):
+    """R2: a time-dependent grant needs a timer that re-runs the trigger."""
+    s = w.store
+    needs = []
+    if mentions_now(s.methods['_do_reserve_put']):
+        needs.append(('put', TP))
+    if mentions_now(s.methods['_do_reserve_get']) or (grant_reads_request(w, 'get') and mentions_now(s.methods['reserve_get'])):
+        needs.append(('get', TG))
+    for which, trig in needs:
+        key = f'{s.ci.label}.put::timer→{trig}'
+        # processes spawned on successful put paths
+        ok_any = False
+        why = 'no process spawned by put() re-runs the trigger after a timed wait'
+        spawned = set()
+        for pa in w.roots['put']:
+            if pa.raises:
+                continue
+            sp = [e for e in pa.events if e.kind == 'spawn' and e.func.startswith('self.')]
+            spawned_here = {e.func[5:] for e in sp}
+            spawned |= spawned_here
+        cands = [n for n in spawned if n in w.roots]
+        good_proc = None
+        for name in cands:
+            allok = True
+            nfull = 0
+            for pa in w.roots[name]:
+                if pa.raises or pa.status == 'loopcut':
+                    continue
+                # "complete" paths: those that do not bail out before the first timed wait
+                evs = pa.events
+                timed = [i for i, e in enumerate(evs) if e.kind == 'yield' and e.cls == 'timeout']
+                if not timed:
+                    continue
+                # first timed wait that completes normally (not cut short by an Interrupt handler edge)
+                first_done = None
+                for i in timed:
+                    nxt = next((x for x in evs[i + 1:] if x.kind not in ('cond', 'implicit-raise')), None)
+                    if nxt is not None and nxt.kind == 'except' and 'Interrupt' in nxt.exc:
+                        continue
+                    first_done = i
+                    break
+                if first_done is None:
+                    continue
+                nfull += 1
+                fired = False
+                cb_events = set()
+                for i, e in enumerate(evs):
+                    if e.kind == 'xcall' and e.name.endswith('.callbacks.append') and e.args and e.args[0] == ('self', trig):
+                        cb_events.add(e.name[:-len('.callbacks.append')])
+                    if i > first_done:
+                        if e.kind == 'yield':
+                            break          # the trigger must run in the segment that follows the completed wait
+                        if e.kind == 'call' and e.name == trig:
+                            fired = True
+                        if e.kind == 'succeed' and e.target in cb_events:
+                            fired = True
+                # a path interrupted for good (outer handler) never resumes: exempt if it ends through an Interrupt handler
+                if not fired and not ended_by_interrupt(pa):
+                    allok = False
+                    why = f'process {name} has a completing path that passes its timed wait without re-running {trig}'
+                    badpath = pa
+            if allok and nfull > 0:
+                good_proc = name
+        fi = s.methods['put']
+        if good_proc:
+            r.ok('C04.R2', key, f'process {good_proc} fires {trig} after its timed wait on every completing path', src(fi.module), fi.node.lineno)
+        else:
+            r.fail('C04.R2', key, why, src(fi.module), fi.node.lineno)
+
+
+def ended_by_interrupt(pa) -> bool:
+    """the path's last exception handler entered was for simpy.Interrupt and no yield followed it"""
+    last = None
+    for e in pa.events:
+        if e.kind == 'except':
+            last = e
+        elif e.kind == 'yield':
+            last = None
+    return last is not None and 'Interrupt' in last.exc
